@@ -545,6 +545,8 @@ pub enum Expect {
     InvalidQuantile(f64),
     /// some error, variant unspecified by the documentation
     AnyErr,
+    /// NonPositiveValue with whatever payload
+    AnyNonPositive,
 }
 
 fn matches_expect(e: &ErrV, x: &Expect, payload: bool) -> bool {
@@ -558,6 +560,7 @@ fn matches_expect(e: &ErrV, x: &Expect, payload: bool) -> bool {
         (ErrV::TooFewFailures(f, n, _), Expect::TooFewFailures(x, y)) => !payload || (f == x && n == y),
         (ErrV::InvalidQuantile(q), Expect::InvalidQuantile(w)) => !payload || q.to_bits() == w.to_bits() || (q.is_nan() && w.is_nan()),
         (_, Expect::AnyErr) => true,
+        (ErrV::NonPositiveValue(_), Expect::AnyNonPositive) => true,
         _ => false,
     }
 }
@@ -573,6 +576,7 @@ fn expect_name(x: &Expect) -> String {
         Expect::TooFewFailures(f, n) => format!("TooFewFailures({f}, {n}, _)"),
         Expect::InvalidQuantile(q) => format!("InvalidQuantile({:?})", q),
         Expect::AnyErr => "any Err".into(),
+        Expect::AnyNonPositive => "NonPositiveValue(_)".into(),
     }
 }
 
@@ -593,6 +597,7 @@ fn class_tag(xs: &[Expect]) -> String {
             Expect::TooFewFailures(..) => "too-few-failures",
             Expect::InvalidQuantile(_) => "quantile-outside-(0,1)",
             Expect::AnyErr => "invalid-argument",
+            Expect::AnyNonPositive => "non-finite-observation",
         })
         .collect();
     t.sort();
@@ -727,6 +732,22 @@ pub fn judge(c: &Case, o: &CaseOut) -> Vec<Violation> {
                                 v.push(Violation::new("C11", &format!("{name}/count-after-feeding"), 0, format!("{ctx}: fed {} records, state reports {:?}", c.a.len(), o.counts)));
                             }
                         }
+                        (None, Out::Err(_)) if accepted.iter().any(|&b| is_nonfinite(c.flt, b) || !tval(c.flt, tr, crate::tape::decode(b, c.flt)).is_finite()) => {
+                            // narrow relaxation: a NaN / infinite record may be rejected when it
+                            // is fed (any variant) instead of being reported by the query; the
+                            // state then holds the records that precede it
+                            let i = accepted.iter().position(|&b| is_nonfinite(c.flt, b) || !tval(c.flt, tr, crate::tape::decode(b, c.flt)).is_finite()).unwrap();
+                            if o.counts.first().copied() != Some(i as u64) {
+                                v.push(Violation::new("C11", &format!("{name}/state-after-rejected-non-finite-record"), 0, format!("{ctx}: {} records precede the rejected one but the state reports {:?}", i, o.counts)));
+                            }
+                            let ts: Vec<f64> = accepted[..i].iter().map(|&b| tval(c.flt, tr, crate::tape::decode(b, c.flt))).collect();
+                            let f = facts_of(c.flt, false, &ts);
+                            let expect = mean_expect(tr, &f, &accepted[..i], c.flt);
+                            if let Some(x) = judge_ci(name, &o.ci, &expect, false, &ctx) {
+                                v.push(x);
+                            }
+                            return v;
+                        }
                         (None, other) => v.push(Violation::new(
                             "C11",
                             &format!("{name}/valid-records-rejected/{}", if other.is_panic() { "panic" } else { "error" }),
@@ -786,6 +807,9 @@ pub fn judge(c: &Case, o: &CaseOut) -> Vec<Violation> {
                         if cnt != 0 && cnt != common as u64 {
                             v.push(Violation::new("C11", &format!("{name}/state-after-failed-extend"), 0, format!("{ctx}: after the failed extend the state reports {cnt} pairs (common prefix is {common})")));
                         }
+                    } else if matches!(fed, Out::Err(_)) && raw_nf {
+                        // narrow relaxation: a non-finite record rejected when it is fed
+                        return v;
                     } else if !fed.is_ok() {
                         v.push(Violation::new("C11", &format!("{name}/valid-records-rejected"), 0, format!("{ctx}: feeding returned {}", render_fed(fed))));
                     }
@@ -804,7 +828,10 @@ pub fn judge(c: &Case, o: &CaseOut) -> Vec<Violation> {
             let fa = facts_of(c.flt, c.a.iter().any(|&b| is_nonfinite(c.flt, b)), &c.a.iter().map(|&b| crate::tape::decode(b, c.flt)).collect::<Vec<_>>());
             let fb = facts_of(c.flt, c.b.iter().any(|&b| is_nonfinite(c.flt, b)), &c.b.iter().map(|&b| crate::tape::decode(b, c.flt)).collect::<Vec<_>>());
             if let Some(fed) = &o.fed {
-                if !fed.is_ok() {
+                if matches!(fed, Out::Err(_)) && (fa.nonfinite || fb.nonfinite) {
+                    // narrow relaxation: a non-finite record rejected when it is fed
+                    return v;
+                } else if !fed.is_ok() {
                     v.push(Violation::new("C11", &format!("{name}/valid-records-rejected"), 0, format!("{ctx}: feeding returned {}", render_fed(fed))));
                 } else if o.counts != vec![c.a.len() as u64, c.b.len() as u64] {
                     v.push(Violation::new("C11", &format!("{name}/count-after-feeding"), 0, format!("{ctx}: fed {}+{} records, state reports {:?}", c.a.len(), c.b.len(), o.counts)));
@@ -908,6 +935,11 @@ fn mean_expect(tr: Transform, f: &Facts, accepted: &[Bits], flt: Flt) -> Vec<Exp
     let mut expect = Vec::new();
     if f.n < 2 {
         expect.push(Expect::TooFew(vec![f.n]));
+        if f.degenerate {
+            // too few observations AND numerically extreme ones (a transform that overflows,
+            // squares that under/overflow): several classes are present, any error will do
+            expect.push(Expect::AnyErr);
+        }
     }
     if f.nonfinite {
         // Harmonic absorbs +inf as the finite reciprocal 0: any Err or a valid Ok (DESIGN 5.4 (4))
@@ -918,6 +950,10 @@ fn mean_expect(tr: Transform, f: &Facts, accepted: &[Bits], flt: Flt) -> Vec<Exp
             });
         if !only_pos_inf_in_harmonic {
             expect.push(Expect::InvalidInput);
+            if tr == Transform::Ln || tr == Transform::Recip {
+                // "NonPositiveValue - if the input data is invalid (for harmonic/geometric means)"
+                expect.push(Expect::AnyNonPositive);
+            }
         }
     }
     expect
